@@ -506,8 +506,11 @@ class Visitor(
 
     @bypass(resolve_source)
     def visit_join(self, source: 'dsl.Join') -> None:
-        if source.condition:
-            self.context.tables.filter(source.condition)
+        if source.condition is not None:
+            if source.kind is dsl.Join.Kind.INNER:
+                self.context.tables.filter(source.condition)
+            else:
+                self.context.tables.select(source.condition)
         super().visit_join(source)
         right = self.context.symbols.pop()
         left = self.context.symbols.pop()
